@@ -44,6 +44,10 @@ func checkC05(c *Ctx) {
 	c.Expect("C05-R12", 6)
 	c.Rule("C05-R17", "When() lies between the arrival of the cause and the delivery: an event's time is time.Now() taken in the function that makes it; nothing re-dates an event afterwards (a stamp carried over from an earlier read precedes the arrival of the input it is put on)")
 	c.Expect("C05-R17", 1)
+	c.Rule("C05-R18", "input is held back, never dropped, across Suspend and Resume: the termios change Drain makes does not flush the input queue (TCSETSF / TIOCSETAF discard type-ahead the reader has not fetched)")
+	c.Expect("C05-R18", 1)
+	c.Rule("C05-R19", "key events are delivered, never dropped, on the page as well: every key callback that is not a modifier key on its own posts an event, non-ASCII characters included (= C19-R13)")
+	c.Expect("C05-R19", 1)
 	c.Rule("C05-R13", "StopQ hands out the channel that only Fini closes (pollers, PostEventWait and ChannelEvents end on it): nothing reachable from Suspend closes that field, Fini's path does")
 	c.Expect("C05-R13", 3)
 	c.Rule("C05-R14", "every delivered event is a complete Event: what a parser appends to the event list is the result of a constructor (or of a module function all of whose returns are), never a pointer that may be nil inside a non-nil interface")
@@ -77,6 +81,7 @@ func checkC05(c *Ctx) {
 		c05Events(c, p)
 		c05FillLevel(c, p)
 		if cfg == "wasm" {
+			checkWebKeyAlwaysPosts(c, p, "C05-R19")
 			checkStopQIsQuit(c, p, "C05-R13", "wScreen")
 			continue
 		}
@@ -92,6 +97,7 @@ func checkC05(c *Ctx) {
 		checkAppendedEventsConstructed(c, p, "C05-R14")
 		checkPollReturnsWhatItReceives(c, p, "C05-R15")
 		checkEventTimeFromConstructor(c, p, "C05-R17")
+		checkDrainKeepsTypeAhead(c, p, "C05-R18")
 		c.asRule("C02-R9", "C05-R16", func() {
 			for _, pi := range inputParsers(p) {
 				c02Consumption(c, p, pi)
